@@ -416,7 +416,7 @@ async def c04_pairings(ctx, cells) -> None:
         op, err, st, extra = cell
         rng = ctx.grng("C04.ble", idx)
         w = BleWorld(rng)
-        items = ([] if st is None else [(6, bytes([st]))]) + ([] if err is None else [(7, err)])
+        items = ([] if st is None else [(6, bytes([st]) if isinstance(st, int) else bytes(st))]) + ([] if err is None else [(7, err)])
         if extra:
             items += [(1, b"other-controller"), (3, bytes(32)), (11, b"\x01")]
         w.accessory.pairings_reply = items
